@@ -8,7 +8,7 @@ fsync(parent) and mkdir < fsync(new) < fsync(parent)), `fsyncAndClose`, `MkdirAl
 structure of `Upload` with its modes and `Localize` before `Join`, `Fetch`, `Discard`, the loop of
 `compareFile`, and the ioctl of the inode flag. The buffer expression of `compareFile` is not pinned
 to one text: it is parsed into the model's vocabulary and *instantiates* the model (`compare_loop`,
-also used by `drv localfs`); whether the instance has a never-empty buffer is `compare_buf_positive`. -/
+also used by `drv localfs`); that the instance has a never-empty buffer is `compare_buf_positive`. -/
 namespace TieC13
 open LocalFS
 
@@ -21,16 +21,19 @@ theorem mkdirall : Generated.c13_mkdirall = Source.mkdirAll := by decide
 theorem upload_branches : Generated.c13_upload = Source.upload := by decide
 theorem fetch_branches : Generated.c13_fetch = Source.fetch := by decide
 theorem discard_branches : Generated.c13_discard = Source.discard := by decide
+/-- `Upload`, `Fetch` and `Discard` (above) call the helper `localize`, which is `filepath.Localize`
+followed by the refusal of the name `"."` — the model's `LocalFS.localize`. -/
+theorem localize_helper : Generated.c13_localize = Source.localizeHelper := by decide
 
 /-- The buffer expression is in the model's vocabulary, and `compareFile` is the model's loop with it. -/
 theorem compare_loop :
     (BufExpr.parse Generated.c13_compare_buf).map (fun e => Source.compareFile { buf := e }) =
       some Generated.c13_comparefile := by decide
 
-/-- The extracted expression is either the one found (F1: empty buffer for empty data) or one whose
-buffer is never empty (`BufExpr.pos`, hence `Program.Progress`, hence `C13_immutable` applies). -/
-theorem compare_buf_known :
-    (BufExpr.parse Generated.c13_compare_buf).map (fun e => e == program.buf || e.pos) = some true := by decide
+/-- The buffer of `compareFile` in the current source is never empty (`BufExpr.pos`, hence
+`Program.Progress`, hence `C13_immutable` applies to it; it was not before commit 1e3891a: F1). -/
+theorem compare_buf_positive :
+    (BufExpr.parse Generated.c13_compare_buf).map BufExpr.pos = some true := by decide
 
 theorem immutable_set : Generated.c13_immutable_set = ["setFlags(f, _FS_IMMUTABLE_FL)"] := by decide
 theorem immutable_unset : Generated.c13_immutable_unset = ["setFlags(f, 0)"] := by decide
